@@ -126,11 +126,21 @@ CANARIES = [
     ('from-leaf-value-is-key', 'C07', 'src/node.rs', 'Node::TYPE_DATA => Leaf::Kv(Bytes::Slice(l.key()), Bytes::Slice(l.value())),', 'Node::TYPE_DATA => Leaf::Kv(Bytes::Slice(l.key()), Bytes::Slice(l.key())),'),
     ('from-page-original-key-off', 'C05', 'src/node.rs', '        let original_key = if data.len() > 0 {\n            Some(data.first_key())\n        } else {\n            None\n        };\n        Node {\n            id,\n            page_id: p.id,', '        let original_key = if data.len() > 1 {\n            Some(data.first_key())\n        } else {\n            None\n        };\n        Node {\n            id,\n            page_id: p.id,'),
     ('getter-counts-lookups', 'C01', 'src/bucket.rs', '            if !exists {\n                if should_create {\n                    self.meta.next_int += 1;', '            self.meta.next_int += 1;\n            if !exists {\n                if should_create {'),
+    ('split-index-off-by-one', 'C05', 'src/node.rs', '                    if count >= MIN_KEYS_PER_NODE && new_size > threshold {\n                        split_indexes.push(i + 1);\n                        current_size = HEADER_SIZE + size;\n                        count = 0;\n                    } else {\n                        current_size = new_size;\n                    }\n                }\n            }\n        };', '                    if count >= MIN_KEYS_PER_NODE && new_size > threshold {\n                        split_indexes.push(i + 2);\n                        current_size = HEADER_SIZE + size;\n                        count = 0;\n                    } else {\n                        current_size = new_size;\n                    }\n                }\n            }\n        };'),
+    ('split-one-entry-pieces', 'C05', 'src/node.rs', 'const MIN_KEYS_PER_NODE: usize = 2;', 'const MIN_KEYS_PER_NODE: usize = 1;'),
+    ('split-last-piece-short', 'C05', 'src/node.rs', 'for (i, l) in leaves[..len - 2].iter().enumerate() {', 'for (i, l) in leaves[..len - 1].iter().enumerate() {'),
+    ('split-keeps-a-copy', 'C05', 'src/node.rs', '            .map(|i| self.data.split_at(i))', '            .map(|i| { let d = self.data.split_at(i); d })'),
+    ('size-forgets-element-headers', 'C05', 'src/node.rs', 'NodeData::Branches(b) => b.iter().fold(BRANCH_SIZE * b.len() as u64, |acc, b| {', 'NodeData::Branches(b) => b.iter().fold(0, |acc, b| {'),
+    ('leaf-size-forgets-value', 'C05', 'src/node.rs', '            Self::Kv(k, v) => k.size() + v.size(),', '            Self::Kv(k, _v) => k.size(),'),
+    ('new-node-wrong-id', 'C05', 'src/bucket.rs', '        let n = Node::with_data(node_id, data, self.pages.pagesize);', '        let n = Node::with_data(node_id + 1, data, self.pages.pagesize);'),
+    ('with-data-keeps-a-page', 'C05', 'src/node.rs', '            page_id: 0,\n            num_pages: 0,\n            children: Vec::new(),\n            data,\n            deleted: false,\n            original_key,\n            pagesize,\n            spilled: false,\n            parent: None,\n        }\n    }\n\n    pub(crate) fn insert_child', '            page_id: 2,\n            num_pages: 1,\n            children: Vec::new(),\n            data,\n            deleted: false,\n            original_key,\n            pagesize,\n            spilled: false,\n            parent: None,\n        }\n    }\n\n    pub(crate) fn insert_child'),
 ]
 
 
 # Semantics-PRESERVING edits: the check must NOT answer exit 1 for any of them (exit 0 or exit 2 are both acceptable).
 EQUIVALENTS = [
+    ('eq-split-threshold-int', 'C16', 'src/node.rs', 'let threshold = ((self.pagesize as f32) * FILL_PERCENT) as u64;', 'let threshold = self.pagesize / 2;'),
+    ('eq-split-count-from-zero', 'C05', 'src/node.rs', '        let mut count = 0;\n        match &self.data {', '        let mut count: usize = 0;\n        match &self.data {'),
     # defensive code for states a sound tree never shows (found by auditing what the mutation sweep reported, DESIGN 11.12)
     ('eq-index-page-no-bound', 'C07', 'src/page_node.rs', '                if index >= p.count as usize {\n                    return 0;\n                }\n', ''),
     ('eq-index-page-past-the-end-answers-one', 'C08', 'src/page_node.rs', '                if index >= n.data.len() {\n                    return 0;\n                }', '                if index >= n.data.len() {\n                    return 1;\n                }'),
